@@ -16,6 +16,13 @@ pub enum Dest {
     Absent,
     ExistingShort,
     ExistingLong,
+    /// the destination holds the object file of a longer version of the same program: the new
+    /// image followed by further words (what recompiling a shortened source meets)
+    ExistingExtends,
+    /// the destination holds the first half of the new image
+    ExistingPrefix,
+    /// the destination already holds exactly the new image
+    ExistingSame,
 }
 
 #[derive(Clone, Copy, Debug, Serialize, Deserialize, PartialEq, Eq, Hash)]
@@ -88,6 +95,13 @@ pub fn judge_case(c: &Case) -> Obs {
     obs.key = hash_of(&(&text, c.dest, c.fault, c.default_dest));
     obs.nontrivial = c.fail_at.is_some() || c.back_total.is_some() || c.fault != Fault::None;
     obs.show = Some(format!("fail_at={:?} dest={:?} fault={:?} default_dest={} stack={}\n{}", c.fail_at, c.dest, c.fault, c.default_dest, built.stack, text));
+    obs.label(match c.dest {
+        Dest::Absent => "destination-absent",
+        Dest::ExistingShort | Dest::ExistingLong => "destination-unrelated-contents",
+        Dest::ExistingExtends => "destination-holds-longer-version",
+        Dest::ExistingPrefix => "destination-holds-prefix",
+        Dest::ExistingSame => "destination-holds-same-image",
+    });
     obs.label(match c.fault {
         Fault::None => "fault-none",
         Fault::DevFull => "fault-dev-full",
@@ -121,7 +135,40 @@ pub fn judge_case(c: &Case) -> Obs {
             }
         }
     };
+    // the image the reference expects (when the program is valid; otherwise that of the base program)
+    let related_image: Vec<u8> = {
+        let img = match &verdict {
+            Verdict::Accept(img) => Some(img.clone()),
+            _ => match refasm::judge(&built.program, built.stack) {
+                Verdict::Accept(img) => Some(img),
+                _ => None,
+            },
+        };
+        let mut v = Vec::new();
+        if let Some(img) = img {
+            v.extend(img.orig.unwrap_or(0x3000).to_be_bytes());
+            for w in &img.words {
+                v.extend(w.to_be_bytes());
+            }
+        }
+        v
+    };
+    let related: Option<Vec<u8>> = match c.dest {
+        Dest::ExistingExtends => {
+            let mut v = related_image.clone();
+            v.extend((0..(2 + 2 * (obs.key % 9) as usize)).map(|i| [0x12u8, 0x34, 0xF0, 0x25, 0x00, 0x00][i % 6]));
+            Some(v)
+        }
+        Dest::ExistingPrefix => Some(related_image[..(related_image.len() / 4) * 2].to_vec()),
+        Dest::ExistingSame => Some(related_image.clone()),
+        _ => None,
+    };
     let before: Option<Vec<u8>> = match (c.fault, c.dest, &dest_path) {
+        (Fault::None | Fault::ReadOnlyFile, Dest::ExistingExtends | Dest::ExistingPrefix | Dest::ExistingSame, Some(p)) => {
+            let bytes = related.clone().unwrap_or_default();
+            std::fs::write(p, &bytes).unwrap();
+            Some(bytes)
+        }
         (Fault::None | Fault::ReadOnlyFile, Dest::ExistingShort, Some(p)) => {
             std::fs::write(p, &old_short).unwrap();
             Some(old_short.clone())
@@ -224,7 +271,7 @@ impl Prop for C08 {
         true
     }
     fn rule(&self) -> &'static str {
-        "For each generated ProgGen program of n <= ~14 statements: the valid program and an out-of-reach label reference (BR/LD/LEA/ST/JSR in turn) placed at EVERY statement position 0..n (padding barely / comfortably / far beyond the field's reach), and a backward reference from the last to the first statement in programs of exactly 255..259 and 300 words, x destination {absent, pre-existing with known contents, pre-existing and longer than the new image} x default / explicit destination; and the destination faults {/dev/full, path in a non-existent directory, path that is a directory, read-only file}. `lace compile` is the real binary (guard off). \
+        "For each generated ProgGen program of n <= ~14 statements: the valid program and an out-of-reach label reference (BR/LD/LEA/ST/JSR in turn) placed at EVERY statement position 0..n (padding barely / comfortably / far beyond the field's reach), and a backward reference from the last to the first statement in programs of exactly 255..259 and 300 words, x destination {absent, pre-existing with known contents, pre-existing and longer than the new image, the new image followed by further words (object file of a longer version of the program), the first half of the new image, exactly the new image} x default / explicit destination; and the destination faults {/dev/full, path in a non-existent directory, path that is a directory, read-only file}. `lace compile` is the real binary (guard off). \
          Oracle: exit 0 => the destination holds exactly origin ++ words of the RefAsm image (big-endian); exit != 0 => the destination's bytes / absence are exactly as before; a destination that cannot take the data must not end in exit 0. \
          Non-trivial: a failure is injected (emission position or I/O fault). Distinct = hash(source, destination state, fault). The enumerated fault set is complete per program (exhaustive over positions x destination states x listed faults); programs are sampled."
     }
@@ -264,7 +311,7 @@ impl Prop for C08 {
             let mut positions: Vec<Option<usize>> = vec![None];
             positions.extend((0..=nstmts).map(Some));
             for fail_at in positions {
-                for (k, dest) in [Dest::Absent, Dest::ExistingShort, Dest::ExistingLong].into_iter().enumerate() {
+                for (k, dest) in [Dest::Absent, Dest::ExistingShort, Dest::ExistingLong, Dest::ExistingExtends, Dest::ExistingPrefix, Dest::ExistingSame].into_iter().enumerate() {
                     n += 1;
                     let case = Case { spec: spec.clone(), fail_at, back_total: None, dest, fault: Fault::None, default_dest: (n + k as u64) % 3 == 0 };
                     judge_one(ctx, rep, &case, &mut |c| judge_case(c));
@@ -284,7 +331,7 @@ impl Prop for C08 {
                 }
             }
         }
-        rep.exhaustive.push("per generated program: every emission position x 3 destination states, plus 4 destination faults x 3 assembly outcomes".into());
+        rep.exhaustive.push("per generated program: every emission position x 6 destination states, plus 4 destination faults x 3 assembly outcomes".into());
     }
     fn replay(&self, _ctx: &Ctx, case: &Value) -> Obs {
         match serde_json::from_value::<Case>(case.clone()) {
